@@ -38,7 +38,7 @@ for sid in ids:
                          "violation_kind": viol.group(1) if viol else None, "violation": (viol.group(2)[:300] if viol else None)},
         "caught": bool(chk and chk.group(2) == "1"),
     })
-    if sid[-1] in "cdef" and "first_pass_caught" not in meta:
+    if sid[-1] in "cdefghij" and "first_pass_caught" not in meta:
         # (rounds after the first: what the checks did before they were strengthened against this change)
         meta["first_pass_caught"] = prev_caught if prev_caught is not None else meta["caught"]
     json.dump(meta, open(meta_p, "w"), indent=1)
